@@ -38,6 +38,13 @@ def shards(tier, seed):
             for Dy in (1, 2, 4):
                 for Dk in ((1, 2, 3) if Dy < 4 else (2,)):
                     out.append(dict(id="C16/%s/Dx%d.Dy%d.Dk%d" % (kind, Dx, Dy, Dk), kind=kind, Dx=Dx, Dy=Dy, Dk=Dk, cost=Dx * 3, facts=dict(kind=kind, Dx=Dx, Dy=Dy, Dk=Dk)))
+    # larger sizes: more than three kernels / noise units, five outputs
+    for kind in ("LRBF", "LSEM"):
+        for (Dx, Dy, Dk) in ((2, 2, 4), (3, 5, 5)):
+            out.append(dict(id="C16/%s/Dx%d.Dy%d.Dk%d.large" % (kind, Dx, Dy, Dk), kind=kind, Dx=Dx, Dy=Dy, Dk=Dk, cost=Dx * 4, facts=dict(kind=kind, Dx=Dx, Dy=Dy, Dk=Dk)))
+    for link in LINKS:
+        for (Dx, Dy, Da, Dk) in ((2, 3, 4, 4), (3, 5, 5, 5)):
+            out.append(dict(id="C16/Hetero%s/Dx%d.Dy%d.Da%d.Dk%d.large" % (link, Dx, Dy, Da, Dk), kind="Hetero", link=link, Dx=Dx, Dy=Dy, Da=Da, Dk=Dk, cost=Dx * 4, facts=dict(kind="Hetero" + link, link=link, Dx=Dx, Dy=Dy, Da=Da, Dk=Dk)))
     for link in LINKS:
         for Dx in BOUNDS[tier]["Dx"]:
             for (Dy, Da, Dk) in HSHAPES:
